@@ -295,7 +295,13 @@ def run_replay(ctx, binary, schedules, label, chunk=400):
         outs = list(ex.map(one, range(len(chunks))))
     res, events, errs = {}, [], []
     for rc, so, se, to in outs:
-        lines = [json.loads(x) for x in so.strip().splitlines() if x.startswith("{")]
+        lines = []
+        for x in so.strip().splitlines():
+            if x.startswith("{"):
+                try:
+                    lines.append(json.loads(x))
+                except ValueError:      # a driver that died (panic, kill) leaves a truncated last line
+                    pass
         if lines and lines[-1].get("gates") is False:
             return None
         an = analyse({"mode": "replay", "schedules": label}, rc, "", se, to, need_result=False)
